@@ -2,7 +2,8 @@
 (***************************************************************************)
 (* prayer_times_dt downstream of the astronomy, as a state machine with    *)
 (* one action per stage of the code:                                       *)
-(*   GetHoursA -> PolicyA -> IntervalA -> TimesA -> Imsaak1A [-> Imsaak2A] *)
+(*   GetHoursA -> PreIntervalA -> PolicyA -> IntervalA -> TimesA           *)
+(*             -> Imsaak1A [-> Imsaak2A]                                   *)
 (* Panic is a state, not an omission.  TLC explores every policy x         *)
 (* validity pattern x interval / offset / rounding choice over a small     *)
 (* environment of representative hours and checks C05, C07, C08, C10, C12  *)
@@ -66,9 +67,16 @@ Init ==
     /\ panic = FALSE
 
 -----------------------------------------------------------------------------
-GetHoursA == /\ stage = "start" /\ stage' = "policy"
+GetHoursA == /\ stage = "start" /\ stage' = "preint"
              /\ h' = GetHours(env, P.var)
              /\ UNCHANGED <<P, env, res, panic>>
+
+\* the first adj_for_int call (repair of D9); absent in the pre-fix code (LegacyLateInt)
+PreIntervalA == /\ stage = "preint"
+                /\ IF ~LegacyLateInt /\ IntPanics(h, P, LegacyUnwrap)
+                   THEN panic' = TRUE /\ stage' = "panic" /\ UNCHANGED h
+                   ELSE h' = PreInt(h, P) /\ stage' = "policy" /\ UNCHANGED panic
+                /\ UNCHANGED <<P, env, res>>
 
 PolicyA == /\ stage = "policy" /\ stage' = "interval"
            /\ h' = PolicyW(h, P, env)
@@ -106,7 +114,7 @@ Imsaak2A == /\ stage = "imsaak2"
                                   IF t.ok /\ ~LegacyImsaakFlag THEN [t EXCEPT !.x = TRUE] ELSE t]
             /\ UNCHANGED <<P, env, h>>
 
-Next == GetHoursA \/ PolicyA \/ IntervalA \/ TimesA \/ Imsaak1A \/ Imsaak2A
+Next == GetHoursA \/ PreIntervalA \/ PolicyA \/ IntervalA \/ TimesA \/ Imsaak1A \/ Imsaak2A
 Spec == Init /\ [][Next]_vars /\ WF_vars(Next)
 
 -----------------------------------------------------------------------------
@@ -126,11 +134,17 @@ SevenEntries == Done => DOMAIN res = P7 /\ res[Dhuhr].ok
 \* C05: with no policy nothing is flagged extreme
 NoPolicyNoFlags == (Done /\ P.pol = PNone) => \A p \in P7 : ~res[p].x
 
-\* C08 is quantified over the 8 named methods: none defines Fajr by an interval, and the two that
-\* define Isha by an interval have Isha angle 0, so their conventional Isha exists exactly when
-\* Maghrib does (at the site and at the substitute latitude)
+\* C08 is quantified over the 8 named methods: none defines Fajr by an interval.  (Until D9 was repaired this
+\* definition also ASSUMED that for the two methods that define Isha by an interval, Isha angle 0, "the conventional
+\* Isha exists exactly when Maghrib does" - an assumption about the environment that the real Sun does not honour
+\* where it culminates between -0.83 and 0 degrees, and that hid the findings F2 / F3 = D9 at design level; the
+\* trace check found them.  The assumption is gone: LegacyLateInt = TRUE now violates InvalidKeepsValid and
+\* IdentityWhenAllValid in TLC.)
+\* What remains is a fact about substitute latitudes within [-60, 60] (the range C08 is checked over): there the Sun
+\* crosses 0 degrees whenever it sets, so the placeholder Isha of the substitute latitude exists exactly when its
+\* Maghrib does.
 IshaTied(tabs) == \A var \in {"base", "im"} : tabs[var][Isha].ok = tabs[var][Maghrib].ok
-NamedMethodShape == P.fi = 0 /\ (P.ii # 0 => IshaTied(env.here) /\ IshaTied(env.nl))
+NamedMethodShape == P.fi = 0 /\ (P.ii # 0 => IshaTied(env.nl))
 QuantifiedC08 == NamedMethodShape /\ (P.pol \in IntervalConsumers => P.fi = 0 /\ P.ii = 0)
 \* C08 (a): a policy restricted to Fajr and Isha never changes Shurooq, Dhuhr, Asr, Maghrib
 FajrIshaOnly == (Done /\ P.pol \in FajrIshaOnlyPolicies /\ QuantifiedC08) =>
